@@ -65,7 +65,7 @@ Hypothesis Htmp : vE s0 t = None.
 Lemma Ph_call : forall m s call rest, skipn m (publish_meta p c) = call :: rest -> Ph m s ->
   exists s', step s call = Some s' /\ Ph (S m) s' /\ skipn (S m) (publish_meta p c) = rest.
 Proof.
-  intros m s call rest Hs H.
+  intros m s call rest Hs H. unfold publish_meta, gen_write_file in *. cbn [tmp_of dir_of] in *.
   destruct m as [|[|[|[|[|m]]]]]; simpl in Hs; try (destruct m; discriminate); inversion Hs; subst; clear Hs; simpl in H.
   - destruct H as [A [B C]]. simpl. rewrite A. fold t. rewrite Htmp. eexists. split; [reflexivity|]. split; [|reflexivity].
     simpl. rewrite B. fold i. rewrite upd_e_same, upd_d_same. repeat split; auto.
